@@ -65,7 +65,13 @@ def delta_kernel(ctx, dim, kernel, grid, cell, case, dx_kind, n_markers=1):
                 ctx.assume(fa >= 1)
                 ctx.assume(fa <= 1 + EPS_SLACK)
             f.append(fa)
-            pos[a, m] = float(shift) + (cell[a] + m + fa) * dxf if not ctx.sym else float(shift) + (cell[a] + m + fa) * dxf
+            if ctx.sym:
+                from symsopht import sym as S
+
+                # exact rational arithmetic (a float sum would round and move an on-centre marker off the centre)
+                pos[a, m] = S.lift(shift) + (S.lift(cell[a] + m) + S.lift(fa)) * S.lift(dx)
+            else:
+                pos[a, m] = float(shift) + (cell[a] + m + fa) * dxf
     support = ctx.array("support_prior", (dim,) + (4,) * dim + (n,))
     weights = ctx.array("weights_prior", (4,) * dim + (n,))
     if ctx.sym:
@@ -108,7 +114,10 @@ def delta_kernel(ctx, dim, kernel, grid, cell, case, dx_kind, n_markers=1):
                 support[a][..., m] = (nearest[a, m] + comp[a]) * dxf + float(shift) - pos[a, m]
     for m in range(n):
         for a in range(dim):
-            ctx.eq(f"nearest_index[{a},{m}]", nearest[a, m], float(cell[a] + m))
+            if ctx.sym or case[a] == "interior":
+                ctx.eq(f"nearest_index[{a},{m}]", nearest[a, m], float(cell[a] + m))
+            # (replay of an on-centre / slack case: floating-point floor may legitimately return the index below -
+            #  the behaviour the source comment acknowledges - so the index itself is not asserted there)
     dist = support.copy()  # signed distances marker -> support cells
     k_weights(weights, support)
     ctx.disable_pruning()
@@ -120,7 +129,9 @@ def delta_kernel(ctx, dim, kernel, grid, cell, case, dx_kind, n_markers=1):
         weights.reshape(-1)[...] = merged
     ctx.prefer = "nlsat"
     vol = dxf**dim
-    tol = 0.0 if "slack" not in case else 1e-9
+    # equalities are exact except (a) the slack case and (b) spacings that are not exactly representable ("odd"): there the
+    # grid coordinates / shift are floats that are not exact multiples of dx, so on-centre claims hold up to rounding only
+    tol = 0.0 if ("slack" not in case and dx_kind == "unit") else (1e-9 if ctx.real_t == np.float64 else 2e-5)
     for m in range(n):
         w = weights[..., m]
         for idx in np.ndindex(*w.shape):
@@ -160,22 +171,20 @@ def delta_kernel(ctx, dim, kernel, grid, cell, case, dx_kind, n_markers=1):
                     ctx.eq(f"first_moment[{a},{m}]", mom, 0.0)
     # interpolation through the real kernel: constant field and the simulator's coordinate field
     k_interp = gen_interp(dx=dx, num_lag_nodes=n, interp_kernel_width=2, n_components=1)
-    cval = ctx.scalar("const_field_value", default=0.75)
-    if tol:
-        ctx.assume(cval <= 1)
-        ctx.assume(cval >= -1)
+    # the interpolation kernel is linear in the field (sum of field * weight): one concrete constant suffices
+    cval = 0.75
     field = ctx.zeros(grid) + cval
     out = ctx.array("lag_prior", (n,))
     nearest_int = nearest if not ctx.sym else np.array([[int(v) for v in row] for row in nearest], dtype=int)
     k_interp(out, field, weights, nearest_int)
     for m in range(n):
-        (close(ctx, f"interpolated_constant[{m}]", out[m], cval, 1e-7) if tol else ctx.eq(f"interpolated_constant[{m}]", out[m], cval))
+        (close(ctx, f"interpolated_constant[{m}]", out[m], cval, max(tol, 1e-7)) if tol else ctx.eq(f"interpolated_constant[{m}]", out[m], cval))
     if kernel == "peskin":
         for a in range(dim):
             out = ctx.array("lag_prior2", (n,))
             k_interp(out, ctx.const_array(sim.position_field[a]), weights, nearest_int)
             for m in range(n):
-                (close(ctx, f"interpolated_coordinate[{a},{m}]", out[m], pos[a, m], 1e-7) if tol else ctx.eq(f"interpolated_coordinate[{a},{m}]", out[m], pos[a, m]))
+                (close(ctx, f"interpolated_coordinate[{a},{m}]", out[m], pos[a, m], max(tol, 1e-7)) if tol else ctx.eq(f"interpolated_coordinate[{a},{m}]", out[m], pos[a, m]))
 
 
 def main():
